@@ -424,6 +424,24 @@ def build(k, skel: Skel):
         from .solve import skip_unsupported_filters
 
         skip_unsupported_filters(k, b, skel)
+    elif skel.names_with_role("filter") and not getattr(skel, "filters_may_reject_everything", False):
+        # precondition of every claim about a model with filters (since the fix of F11 the library rejects
+        # the opposite with a ValueError when the spaces are created): in every period the filters admit at
+        # least one combination of restricted states and choices
+        import itertools
+
+        from pyvc import logic as L
+
+        from .bellman import Layout
+        from .specmodel import spec_eval
+
+        lay = Layout(skel)
+        for t in range(skel.n_periods):
+            alts = []
+            for combo in itertools.product(*[range(skel.n_labels(v)) for v in lay.RS + lay.RC]):
+                env = {**dict(zip(lay.RS + lay.RC, combo)), "_period": t}
+                alts.append(L.And(*[spec_eval(k, b, f, env) for f in skel.names_with_role("filter")]))
+            k.requires(L.Or(*alts))
     return b
 
 
